@@ -2042,6 +2042,11 @@ def distributed_shampoo(
   if average_grad and not frequent_directions:
     raise ValueError("average_grad requested but frequent_directions is False")
 
+  if frequent_directions and not reuse_preconditioner:
+    raise ValueError("frequent_directions=True requires "
+                     "reuse_preconditioner=True: the sketch is carried in the "
+                     "previous preconditioner")
+
   if frequent_directions and (statistics_compute_steps !=
                               preconditioning_compute_steps):
     raise ValueError("frequent_directions=True requires "
